@@ -152,4 +152,128 @@ theorem mem_matchingStores {dbg : List (List Matcher)} {cs : List Client} {mint 
   rw [mem_matchingStores_go]
   simp
 
+/-! ### TSDB selector -/
+
+theorem selStores_spec (sel : Selector) (dbg : List (List Matcher)) (mint maxt : Int) (ms : List Matcher) :
+    ∀ (cs : List Client) (base i : Nat),
+      (i ∈ (selStores sel dbg mint maxt ms base cs).1 ↔
+        ∃ c, base ≤ i ∧ cs[i - base]? = some c ∧ (matchLabelSets sel c.extSets).1 = true ∧
+          storeMatches dbg c mint maxt ms = .ok) ∧
+      (∀ c, base ≤ i → cs[i - base]? = some c → i ∈ (selStores sel dbg mint maxt ms base cs).1 →
+        ∀ e ∈ (matchLabelSets sel c.extSets).2, e ∈ (selStores sel dbg mint maxt ms base cs).2) ∧
+      (∀ e ∈ (selStores sel dbg mint maxt ms base cs).2, ∃ c ∈ cs, e ∈ (matchLabelSets sel c.extSets).2)
+  | [], base, i => by simp [selStores]
+  | c :: r, base, i => by
+    have ih := selStores_spec sel dbg mint maxt ms r (base + 1) i
+    unfold selStores
+    generalize hml : matchLabelSets sel c.extSets = ml at *
+    obtain ⟨m, kept⟩ := ml
+    generalize hrec : selStores sel dbg mint maxt ms (base + 1) r = rec at ih
+    obtain ⟨idx, u⟩ := rec
+    simp only at ih ⊢
+    have hshift : ∀ (hne : i ≠ base) (hb : base ≤ i), (c :: r)[i - base]? = r[i - (base + 1)]? := by
+      intro hne hb
+      have : i - base = (i - (base + 1)) + 1 := by omega
+      rw [this]; simp
+    by_cases hq : (m && decide (storeMatches dbg c mint maxt ms = .ok)) = true
+    · simp only [hq, if_true]
+      have hq' : m = true ∧ storeMatches dbg c mint maxt ms = .ok := by simpa using hq
+      refine ⟨?_, ?_, ?_⟩
+      · simp only [List.mem_cons]
+        constructor
+        · rintro (rfl | h)
+          · exact ⟨c, Nat.le_refl _, by simp, by rw [hml]; exact hq'.1, hq'.2⟩
+          · obtain ⟨c', hb, hget, h1, h2⟩ := ih.1.mp h
+            exact ⟨c', by omega, by rw [hshift (by omega) (by omega)]; exact hget, h1, h2⟩
+        · rintro ⟨c', hb, hget, h1, h2⟩
+          by_cases hib : i = base
+          · exact Or.inl hib
+          · right
+            rw [hshift hib hb] at hget
+            exact ih.1.mpr ⟨c', by omega, hget, h1, h2⟩
+      · intro c' hb hget hmem e he
+        by_cases hib : i = base
+        · subst hib
+          simp at hget; subst hget
+          rw [hml] at he
+          exact List.mem_append_left _ he
+        · rw [hshift hib hb] at hget
+          simp only [List.mem_cons] at hmem
+          rcases hmem with h | h
+          · exact absurd h hib
+          · exact List.mem_append_right _ (ih.2.1 c' (by omega) hget h e he)
+      · intro e he
+        simp only [List.mem_append] at he
+        rcases he with he | he
+        · exact ⟨c, by simp, by rw [hml]; exact he⟩
+        · obtain ⟨c', hc', h⟩ := ih.2.2 e he
+          exact ⟨c', List.mem_cons_of_mem _ hc', h⟩
+    · simp only [hq, if_false, Bool.false_eq_true]
+      refine ⟨?_, ?_, ?_⟩
+      · constructor
+        · intro h
+          obtain ⟨c', hb, hget, h1, h2⟩ := ih.1.mp h
+          exact ⟨c', by omega, by rw [hshift (by omega) (by omega)]; exact hget, h1, h2⟩
+        · rintro ⟨c', hb, hget, h1, h2⟩
+          by_cases hib : i = base
+          · subst hib
+            simp at hget; subst hget
+            rw [hml] at h1
+            have h1' : m = true := h1
+            exact absurd (by simp [h1', h2]) hq
+          · rw [hshift hib hb] at hget
+            exact ih.1.mpr ⟨c', by omega, hget, h1, h2⟩
+      · intro c' hb hget hmem e he
+        by_cases hib : i = base
+        · subst hib
+          obtain ⟨c'', hb', _, _, _⟩ := ih.1.mp hmem
+          omega
+        · rw [hshift hib hb] at hget
+          exact ih.2.1 c' (by omega) hget hmem e he
+      · intro e he
+        obtain ⟨c', hc', h⟩ := ih.2.2 e he
+        exact ⟨c', List.mem_cons_of_mem _ hc', h⟩
+
+theorem mem_eraseDups {α : Type} [BEq α] [LawfulBEq α] (l : List α) (x : α) : x ∈ l.eraseDups ↔ x ∈ l := by
+  simp
+
+theorem mem_labelNames {sets : List Labels} {n : String} :
+    n ∈ labelNames sets ↔ ∃ ls ∈ sets, has ls n = true := by
+  unfold labelNames
+  rw [mem_eraseDups]
+  simp only [List.mem_flatMap, List.mem_map]
+  constructor
+  · rintro ⟨ls, hls, p, hp, rfl⟩
+    exact ⟨ls, hls, has_eq_true_iff.mpr (List.mem_map.mpr ⟨p, hp, rfl⟩)⟩
+  · rintro ⟨ls, hls, h⟩
+    obtain ⟨p, hp, rfl⟩ := List.mem_map.mp (has_eq_true_iff.mp h)
+    exact ⟨ls, hls, p, hp, rfl⟩
+
+/-- a series served under a label set of the union satisfies every matcher generated for the union,
+    provided it has no label of its own under an external label name the set lacks -/
+theorem matchAll_matchersForLabelSets (union : List Labels) (e : Labels) (he : e ∈ union) (s : Labels)
+    (hext : ∀ n, has e n = true → get s n = get e n)
+    (hclash : ∀ n ∈ labelNames union, has e n = false → get s n = "") :
+    matchAll (matchersForLabelSets union) s = true := by
+  simp only [matchAll, matchersForLabelSets, List.all_eq_true, List.mem_map]
+  rintro m ⟨n, hn, rfl⟩
+  simp only [selMatcher, Matcher.matches]
+  cases hh : has e n with
+  | true =>
+    rw [hext n hh]
+    have : get e n ∈ valuesOf union n := by
+      simp only [valuesOf, List.mem_filterMap]
+      exact ⟨e, he, by simp [hh]⟩
+    simp [this]
+  | false =>
+    rw [hclash n hn hh]
+    have : someLacks union n = true := by
+      simp only [someLacks, List.any_eq_true]
+      exact ⟨e, he, by simp [hh]⟩
+    simp [this]
+
+theorem matchAll_append (a b : List Matcher) (s : Labels) :
+    matchAll (a ++ b) s = (matchAll a s && matchAll b s) := by
+  simp [matchAll, List.all_append]
+
 end Thanos.Prune
